@@ -1,6 +1,8 @@
 CONSTANTS
   Mods = {"a", "b"}
   Missing = {"d"}
+  MainOrders = {}
+  NRandom = 0
 INIT Init
 NEXT Next
 INVARIANTS BodyAtMostOnce ImportsBeforeBody CycleIffError Emit
